@@ -31,7 +31,7 @@ structure DeliverEffect (net : Net) (i : Nat) (nd : Node) (ev : Ev) (net' : Net)
   pos : ∀ j, pos net' j = pos net j
   upq : ∀ j, upq net' j =
     if j + 1 = i ∧ net.aliveAt (i - 1) = true ∧ j < net.links.length then upq net j ++ (nd.step ev).2.up else upq net j
-  tasks : net'.tasks = net.tasks ++ (nd.step ev).2.tasks.map (fun t => (i, t.1, t.2))
+  tasks : net'.tasks = net.tasks
 
 theorem deliver_effect (net : Net) (i : Nat) (nd : Node) (ev : Ev) (hn : net.nodes[i]? = some nd) :
     DeliverEffect net i nd ev (net.deliver i ev) := by
